@@ -111,4 +111,4 @@ LEVEL_TEXT = (
     "text field at every fill length, 0..12 pointer records, all valid creation stamps)."
 )
 LEVEL_NOTE = "Trusted base: frozen layout/exposure tables for the volume directory."
-TECHNIQUE = "Hypothesis-generated volume directories via independent encoder; reference-model oracle on the full root attrs dict"
+TECHNIQUE = "Hypothesis-generated volume directories via independent encoder; reference-model oracle on the full root attrs dict; injected transient read faults"
